@@ -132,6 +132,15 @@ def real_solve_canon(case):
         grid, conc, flx = real_solve(case)
     except Exception as e:  # noqa: BLE001
         return ("err", err_kind(e), repr(e)[:200])
+    try:
+        return _canon(case, grid, conc, flx)
+    except Exception as e:  # noqa: BLE001
+        # whatever was returned cannot be brought into the canonical form (wrong container, wrong element type, ragged): a disagreement on
+        # THIS input, not a tooling failure
+        return ("shape", "uncanonicalisable result: %r" % (e,), None)
+
+
+def _canon(case, grid, conc, flx):
     q = np.asarray(case["q"])
     ny, nx = q.shape
     levels = case["levels"]
